@@ -10,7 +10,7 @@
 static std::string MINI;       // text of data/c06/mini.dat
 static std::string MINI_PITZ, MINI_SIT, MINI_LLNL;   // mini.dat plus a PITZER / SIT / LLNL_AQUEOUS_MODEL_PARAMETERS block (the other activity models)
 static std::string DBDIR;      // <repo>/database
-static std::string IN_SPEC, IN_KIN, IN_BASIC, IN_ADV, IN_TRN, IN_TRM, IN_INV, IN_ERR, IN_ERR2, IN_BRINE;   // data/c06/inputs/*.in
+static std::string IN_SPEC, IN_KIN, IN_BASIC, IN_ADV, IN_TRN, IN_TRM, IN_INV, IN_ERR, IN_ERR2, IN_BRINE, IN_RX;   // data/c06/inputs/*.in
 
 unsigned long long fnv1a(const std::string &s) {
   unsigned long long h = 1469598103934665603ULL;
@@ -34,6 +34,7 @@ void bodies_init(const char *mini, const char *dbdir) {
   MINI_PITZ = readfile((d + "/mini_pitzer.dat").c_str()); MINI_SIT = readfile((d + "/mini_sit.dat").c_str()); MINI_LLNL = readfile((d + "/mini_llnl.dat").c_str());
   d += "/inputs/";
   IN_BRINE = readfile((d + "brine.in").c_str());
+  IN_RX = readfile((d + "rx.in").c_str());
   IN_SPEC = readfile((d + "spec.in").c_str()); IN_KIN = readfile((d + "kin.in").c_str()); IN_BASIC = readfile((d + "basic.in").c_str());
   IN_ADV = readfile((d + "adv.in").c_str()); IN_TRN = readfile((d + "trn.in").c_str()); IN_TRM = readfile((d + "trm.in").c_str());
   IN_INV = readfile((d + "inv.in").c_str()); IN_ERR = readfile((d + "err.in").c_str()); IN_ERR2 = readfile((d + "err2.in").c_str());
@@ -169,6 +170,7 @@ static void b_trn(int t, BodyOut &o) { run_body(t, o, IN_TRN.c_str()); }
 static void b_trm(int t, BodyOut &o) { run_body(t, o, IN_TRM.c_str()); }
 static void b_inv(int t, BodyOut &o) { run_body(t, o, IN_INV.c_str()); }
 static void b_load(int t, BodyOut &o) { run_body(t, o, IN_SPEC.c_str(), true); }
+static void b_rx(int t, BodyOut &o) { run_body(t, o, IN_RX.c_str()); }      // surface (default, -diffuse_layer, -donnan), exchange, gas, solid solution, MIX, COPY, DUMP
 static void b_pitz(int t, BodyOut &o) { run_body(t, o, IN_BRINE.c_str(), false, &MINI_PITZ); }
 static void b_sit(int t, BodyOut &o) { run_body(t, o, IN_BRINE.c_str(), false, &MINI_SIT); }
 static void b_llnl(int t, BodyOut &o) { run_body(t, o, IN_BRINE.c_str(), false, &MINI_LLNL); }
@@ -213,7 +215,7 @@ static void b_cpp(int t, BodyOut &o) {
 const BodyDef BODIES[] = {
     {"reg", b_reg}, {"spec", b_spec}, {"kin", b_kin}, {"basic", b_basic}, {"adv", b_adv}, {"trn", b_trn},
     {"trm", b_trm}, {"inv", b_inv}, {"err", b_err}, {"cpp", b_cpp}, {"load", b_load},
-    {"pitz", b_pitz}, {"sit", b_sit}, {"llnl", b_llnl},
+    {"pitz", b_pitz}, {"sit", b_sit}, {"llnl", b_llnl}, {"rx", b_rx},
 };
 const int NBODIES = sizeof(BODIES) / sizeof(BODIES[0]);
 const BodyDef *body_by_name(const char *n) {
